@@ -252,6 +252,9 @@ func (root *Root) resolveSels(
 }
 
 func (root *Root) skipSel(sel Selection, vars map[string]interface{}) (skip bool, ea []error) {
+	// A selection is skipped if any @skip is true or any @include is false
+	// no matter the order the directives appear in, one directive must not
+	// undo the decision of another.
 	for _, du := range sel.Directives() {
 		switch du.Directive.Name() {
 		case "skip":
@@ -260,10 +263,10 @@ func (root *Root) skipSel(sel Selection, vars map[string]interface{}) (skip bool
 			if av := du.Args["if"]; av != nil {
 				switch v := av.Value.(type) {
 				case bool:
-					skip = v
+					skip = skip || v
 				case Var:
 					if b, ok := vars[string(v)].(bool); ok {
-						skip = b
+						skip = skip || b
 					} else {
 						skip = true // default to skipping
 						ea = append(ea, resWarnp(sel, "%v is not a valid 'if' value for @skip", v))
@@ -276,10 +279,10 @@ func (root *Root) skipSel(sel Selection, vars map[string]interface{}) (skip bool
 			if av := du.Args["if"]; av != nil {
 				switch v := av.Value.(type) {
 				case bool:
-					skip = !v
+					skip = skip || !v
 				case Var:
 					if b, ok := vars[string(v)].(bool); ok {
-						skip = !b
+						skip = skip || !b
 					} else {
 						skip = true // default to skipping
 						ea = append(ea, resWarnp(sel, "%v is not a valid 'if' value for @include", v))
